@@ -32,7 +32,8 @@ def run(ctx, report):
     from . import markup_writer_fold
     report.section("written documents", markup_writer_fold.run, ctx, report, {"langs": ("R-DOC-LANGS", "1"),
                                                                               "sami_langs": ("R-DOC-LANGS", "1")})
-    from . import dfxp_reader_fold
+    from . import dfxp_reader_fold, merge_fold
+    report.section("merging keeps languages apart", merge_fold.run, ctx, report, clause="1", only=("R-LOOP",))
     report.section("generated DFXP documents", dfxp_reader_fold.run, ctx, report, {"langs": ("R-DOC-LANGS", "3")})
     from . import sami_reader_fold
     report.section("generated SAMI documents", sami_reader_fold.run, ctx, report, {
